@@ -926,3 +926,35 @@ func singleAssignment(al *ssa.Alloc) *ssa.Store {
 	}
 	return only
 }
+
+// liveMustPass: under the cell, every live path from the entry to block `to`
+// passes through block `via` (dominance in the live sub-graph).
+func (f *Frame) liveMustPass(via, to *ssa.BasicBlock) bool {
+	if f == nil || len(f.Fn.Blocks) == 0 {
+		return false
+	}
+	if via == to {
+		return true
+	}
+	entry := f.Fn.Blocks[0]
+	if entry == via {
+		return true
+	}
+	seen := map[*ssa.BasicBlock]bool{entry: true}
+	stack := []*ssa.BasicBlock{entry}
+	for len(stack) > 0 {
+		b := stack[len(stack)-1]
+		stack = stack[:len(stack)-1]
+		if b == to {
+			return false
+		}
+		for _, s := range b.Succs {
+			if s == via || seen[s] || !f.liveEdge[[2]int{b.Index, s.Index}] {
+				continue
+			}
+			seen[s] = true
+			stack = append(stack, s)
+		}
+	}
+	return true
+}
